@@ -119,7 +119,9 @@ func parseRelation(input *input, dependency *Dependency) error {
 		peek := input.Peek()
 		switch peek {
 		case 0, ',': /* EOF, or done with this relation! yay */
-			dependency.Relations = append(dependency.Relations, *ret)
+			if len(ret.Possibilities) > 0 {
+				dependency.Relations = append(dependency.Relations, *ret)
+			}
 			return nil
 		case '|': /* Next Possi */
 			input.Next()
@@ -433,7 +435,9 @@ func parsePossibilityStageSet(input *input, possi *Possibility) error {
 			return errors.New("Oh no. Reached EOF before StageSet finished")
 		case '>':
 			input.Next()
-			possi.StageSets = append(possi.StageSets, stageSet)
+			if len(stageSet.Stages) > 0 {
+				possi.StageSets = append(possi.StageSets, stageSet)
+			}
 			return nil
 		}
 
